@@ -146,6 +146,7 @@ type c10Sys struct {
 	lateCalls int
 	qSeq      int
 	lastMut   string
+	rewriteDownstream bool // the current query runs with a response-rewriting plugin behind the cache
 	viols     []c10Viol
 	infra     string
 	verbose   bool
@@ -162,8 +163,17 @@ func (n *c10Next) Exec(_ context.Context, qCtx *query_context.Context) error {
 	}
 	q := qCtx.Q()
 	k := c10KeyIndex(q.Question[0].Name)
-	if qCtx.R() != nil {
+	if r := qCtx.R(); r != nil {
 		s.calls = append(s.calls, c10Call{k: k, inDrain: s.inDrain})
+		if s.rewriteDownstream && !s.inDrain {
+			// a plugin behind the cache (ttl, an rdata rewriter) edits the served response in place
+			for _, rr := range r.Answer {
+				rr.Header().Ttl = 600
+				if a, ok := rr.(*dns.A); ok && len(a.A) == 4 {
+					a.A[3] ^= 0xFF
+				}
+			}
+		}
 		return nil
 	}
 	gen := s.nextGen[k] + 1
@@ -419,6 +429,17 @@ func (s *c10Sys) apply(op string, check bool) c10OpInfo {
 			res = "lazy-refresh-already-pending"
 		}
 		return c10OpInfo{"query", "query/" + res}
+	case op == "qd1":
+		// q1 with a plugin behind the cache that rewrites whatever response passes (TTLs to 600,
+		// address bits flipped): what THIS client gets is the rewritten answer and is not judged;
+		// what the cache serves afterwards must not have changed
+		s.qSeq++
+		s.rewriteDownstream = true
+		res, _ := s.query(0, uint16(0x1000+s.qSeq), false, false)
+		s.rewriteDownstream = false
+		s.slotRet = nil
+		s.lastMut = "downstream-rewrite"
+		return c10OpInfo{"query-rewritten-downstream", "query-rewritten-downstream/" + res}
 	case op == "tick":
 		vs.Advance(c10Tick)
 		return c10OpInfo{"tick", "tick"}
@@ -539,7 +560,7 @@ func c10Exec(path []string, op string, verbose bool) c10Result {
 var c10LastSys *c10Sys
 
 func c10EnabledOps(r c10Result) []string {
-	ops := []string{"q1", "q2", "tick", "expire"}
+	ops := []string{"q1", "q2", "qd1", "tick", "expire"}
 	if r.pending {
 		ops = append(ops, "drain")
 	}
